@@ -61,6 +61,8 @@ def obligations(tier):
                          "exact half-microsecond offsets, tempo ratios of 10^9, the tempo in force restated off the microsecond grid); each is replayed through the real parser and query (native floats) "
                          "as a tempo map and as a whole chart with events of every kind in two tracks, and a third of them again under a changed thread-local decimal context; judged against exact rationals: "
                          "|time-exact| <= 0.501 us per segment, tick 0 = 0, non-decreasing, strictly increasing where every tick lasts >= 2 us, every stored time = the un-hinted query of its tick"))
+    obs.append(Ob("C01.lookup_file_scale", "CH", "harness.h_sync2", "lookup_file_scale", 600, funcs=("chartparse.sync.BPMEvents.timestamp_at_tick", "chartparse.sync.BPMEvents._index_of_proximal_event"),
+                  bounds="tempo maps of 50..12000 events (beat-by-beat tempo-mapped songs): a late tick from hint 0, from a near hint, from the exact hint and un-hinted gives one answer; native execution, solver-chosen case"))
     return obs
 
 
